@@ -1,3 +1,5 @@
 import Rtsp.Props.C05
 open Rtsp.Sdp.C05
+#print axioms fmt_roundtrip
 #print axioms fmt_roundtrip_static
+#print axioms sdp_text_roundtrip
